@@ -91,6 +91,8 @@ theorem exUb_wf : WfCase exUb :=
 
 example : Spec.C18 exUb (Board.run exUb) = true := run_spec exUb exUb_wf
 
+example : coopB exLnx = true := by decide +kernel
+
 example : (((Board.run exUb).res, (Board.run exUb).evs.getLast?, ((Board.run exUb).evs.filter fun e => e matches .wr ..).length) ==
     (some .timeout, some (.poff 6144), 6)) = true := by decide +kernel
 
